@@ -6,7 +6,10 @@ SPDX-License-Identifier: Apache-2.0
 
 package encoder
 
-import "encoding/base64"
+import (
+	"encoding/base64"
+	"strings"
+)
 
 // EncodeToString encodes the bytes to string.
 func EncodeToString(data []byte) string {
@@ -15,5 +18,12 @@ func EncodeToString(data []byte) string {
 
 // DecodeString decodes the encoded content to Bytes.
 func DecodeString(encodedContent string) ([]byte, error) {
-	return base64.RawURLEncoding.DecodeString(encodedContent)
+	// only the canonical text of a value: the plain decoder skips line breaks and ignores the unused
+	// bits of the last character, so that one hash (or commitment, or nonce) would have several texts
+	// which compare as different strings
+	if i := strings.IndexAny(encodedContent, "\r\n"); i >= 0 {
+		return nil, base64.CorruptInputError(i)
+	}
+
+	return base64.RawURLEncoding.Strict().DecodeString(encodedContent)
 }
